@@ -33,7 +33,7 @@ pub fn run(args: &Args) -> Report {
         "C11",
         &args.tier,
         args.seed,
-        "complete product store capability (full, non-discoverable only, forced) x residentKey (absent, discouraged, preferred, required) x requireResidentKey x credProps (absent, false, true) x signature counters on/off x PRF requested-and-configured or not at client level and rk x capability at CTAP level, each followed by an assertion with the new credential; distinct by the tuple; every tuple is non-trivial (finite product)",
+        "complete product store capability (full, non-discoverable only, forced) x residentKey (absent, discouraged, preferred, required) x requireResidentKey x credProps (absent, false, true) x signature counters on/off x PRF requested-and-configured or not at client level x user id length (1, 8, 64 bytes) at client level and rk x capability x store form (the store itself, Arc<Mutex>, Arc<RwLock>, Mutex, RwLock around it) at CTAP level, each followed by an assertion with the new credential; distinct by the tuple; every tuple is non-trivial (finite product)",
     );
     rep.exhaustive = true;
     let only = replay_index(args);
@@ -45,12 +45,18 @@ pub fn run(args: &Args) -> Report {
             for require in [false, true] {
                 for cred_props in [None, Some(false), Some(true)] {
                   for (counters, prf) in [(false, false), (true, false), (false, true), (true, true)] {
+                   for uid in [0usize, 1, 2] {
+                    let user_id: Vec<u8> = match uid {
+                        0 => b"the-user".to_vec(),
+                        1 => vec![0x55],
+                        _ => vec![0xA7; 64],
+                    };
                     index += 1;
                     if only.map_or(false, |o| o != index) {
                         continue;
                     }
                     rep.eval();
-                    let case = json!({"index": index, "level": "client", "capability": format!("{disc:?}"), "residentKey": rk_req.map(|r| format!("{r:?}")), "requireResidentKey": require, "credProps": cred_props, "signature_counters": counters, "prf_requested_and_configured": prf});
+                    let case = json!({"index": index, "level": "client", "capability": format!("{disc:?}"), "residentKey": rk_req.map(|r| format!("{r:?}")), "requireResidentKey": require, "credProps": cred_props, "signature_counters": counters, "prf_requested_and_configured": prf, "user_id_len": user_id.len()});
                     rep.nontrivial(fnv_str(&case.to_string()));
                     let want_rk = map_rk(rk_req, require, supports_rk);
                     let refused = want_rk && !supports_rk;
@@ -58,7 +64,7 @@ pub fn run(args: &Args) -> Report {
                     let r = catch(|| {
                         let rig = Rig::ok(disc);
                         let mut client = rig.client(AuthCfg { counters, hmac: if prf { crate::util::HmacCfg::WithoutUv } else { crate::util::HmacCfg::None }, hmac_mc: prf, ..Default::default() });
-                        let mut opts = creation_options(Some("example.com"), b"the-user", "n", &[1u8; 16], vec![pk_param(coset::iana::Algorithm::ES256)]);
+                        let mut opts = creation_options(Some("example.com"), &user_id, "n", &[1u8; 16], vec![pk_param(coset::iana::Algorithm::ES256)]);
                         opts.public_key.authenticator_selection = Some(AuthenticatorSelectionCriteria {
                             authenticator_attachment: None,
                             resident_key: rk_req,
@@ -126,7 +132,7 @@ pub fn run(args: &Args) -> Report {
                                     if s.user_handle.is_some() != discoverable {
                                         rep.violate("client: user handle stored differently from discoverability under the store capability", format!("stored {}, discoverable {discoverable}", s.user_handle.is_some()), case.clone());
                                     }
-                                    if s.user_handle.as_deref().map_or(false, |h| h != b"the-user") {
+                                    if s.user_handle.as_deref().map_or(false, |h| h != user_id.as_slice()) {
                                         rep.violate("client: stored user handle is not the request's user id", String::new(), case.clone());
                                     }
                                     let cp = c.client_extension_results.cred_props.as_ref();
@@ -173,39 +179,32 @@ pub fn run(args: &Args) -> Report {
                         }
                     }
                     rep.sample_class(&format!("client/{disc:?}/{}", if refused { "refused" } else { "ok" }), case);
+                   }
                   }
                 }
             }
         }
         // ---------------- CTAP level
-        for rk in [false, true] {
+        for (rk, form) in [false, true].into_iter().flat_map(|rk| (0..5usize).map(move |f| (rk, f))) {
             index += 1;
             if only.map_or(false, |o| o != index) {
                 continue;
             }
             rep.eval();
-            let case = json!({"index": index, "level": "ctap", "capability": format!("{disc:?}"), "rk": rk});
+            let form_name = ["store", "Arc<Mutex<store>>", "Arc<RwLock<store>>", "Mutex<store>", "RwLock<store>"][form];
+            let case = json!({"index": index, "level": "ctap", "capability": format!("{disc:?}"), "rk": rk, "store_form": form_name});
             rep.nontrivial(fnv_str(&case.to_string()));
             let refused = rk && !supports_rk;
             let discoverable = disc.discoverable(rk);
             let r = catch(|| {
                 let rig = Rig::ok(disc);
-                let mut auth = rig.auth(AuthCfg::default());
-                let info_rk = block_on(auth.get_info()).options.map(|o| o.rk);
-                let reg = block_on(auth.make_credential(mc_request("example.com", b"the-user", &[1u8; 32], vec![pk_param(coset::iana::Algorithm::ES256)], None, None, rk, true, false)));
-                let snap = rig.store.snapshot();
-                let get = match &reg {
-                    Ok(_) => Some(block_on(auth.get_assertion(ga_request("example.com", &[2u8; 32], None, None, true, false)))),
-                    Err(_) => None,
-                };
-                let get2 = match &reg {
-                    Ok(_) => {
-                        rig.uv.set_outcome(crate::collab::UvOutcome::Check { presence: true, verification: false });
-                        Some(block_on(auth.get_assertion(ga_request("example.com", &[4u8; 32], None, None, true, false))).map(|r| r.user.map(|u| u.id.to_vec())).map_err(|e| status_byte_ref(&e)))
-                    }
-                    Err(_) => None,
-                };
-                (info_rk, reg.map(|_| ()).map_err(|e| status_byte_ref(&e)), snap, get.map(|g| g.map(|r| r.user.map(|u| u.id.to_vec())).map_err(|e| status_byte_ref(&e))), get2)
+                match form {
+                    0 => ctap_cell(rig.store.clone(), &rig, rk),
+                    1 => ctap_cell(std::sync::Arc::new(tokio::sync::Mutex::new(rig.store.clone())), &rig, rk),
+                    2 => ctap_cell(std::sync::Arc::new(tokio::sync::RwLock::new(rig.store.clone())), &rig, rk),
+                    3 => ctap_cell(tokio::sync::Mutex::new(rig.store.clone()), &rig, rk),
+                    _ => ctap_cell(tokio::sync::RwLock::new(rig.store.clone()), &rig, rk),
+                }
             });
             let (info_rk, reg, snap, get, get2) = match r {
                 Ok(v) => v,
@@ -258,7 +257,7 @@ pub fn run(args: &Args) -> Report {
                     }
                 }
             }
-            rep.sample_class(&format!("ctap/{disc:?}/{rk}"), case);
+            rep.sample_class(&format!("ctap/{disc:?}/{rk}/{form_name}"), case);
         }
     }
     rep.obs("product_size", json!(index));
@@ -266,4 +265,30 @@ pub fn run(args: &Args) -> Report {
         rep.inconclusive("refusal, credProps or assertion clause never evaluated".into());
     }
     rep
+}
+
+type CtapCell = (Option<bool>, Result<(), u8>, Vec<crate::collab::CredSnap>, Option<Result<Option<Vec<u8>>, u8>>, Option<Result<Option<Vec<u8>>, u8>>);
+
+/// One CTAP-level cell over a store form (the reference store itself or one of the library's lock
+/// wrappers around it): get_info, registration, then two assertions without allow list.
+fn ctap_cell<S>(store: S, rig: &Rig, rk: bool) -> CtapCell
+where
+    S: passkey_authenticator::CredentialStore<PasskeyItem = passkey_types::Passkey> + Send + Sync,
+{
+    let mut auth = crate::util::mk_auth(store, rig.uv.clone(), AuthCfg::default());
+    let info_rk = block_on(auth.get_info()).options.map(|o| o.rk);
+    let reg = block_on(auth.make_credential(mc_request("example.com", b"the-user", &[1u8; 32], vec![pk_param(coset::iana::Algorithm::ES256)], None, None, rk, true, false)));
+    let snap = rig.store.snapshot();
+    let get = match &reg {
+        Ok(_) => Some(block_on(auth.get_assertion(ga_request("example.com", &[2u8; 32], None, None, true, false)))),
+        Err(_) => None,
+    };
+    let get2 = match &reg {
+        Ok(_) => {
+            rig.uv.set_outcome(crate::collab::UvOutcome::Check { presence: true, verification: false });
+            Some(block_on(auth.get_assertion(ga_request("example.com", &[4u8; 32], None, None, true, false))).map(|r| r.user.map(|u| u.id.to_vec())).map_err(|e| status_byte_ref(&e)))
+        }
+        Err(_) => None,
+    };
+    (info_rk, reg.map(|_| ()).map_err(|e| status_byte_ref(&e)), snap, get.map(|g| g.map(|r| r.user.map(|u| u.id.to_vec())).map_err(|e| status_byte_ref(&e))), get2)
 }
